@@ -75,10 +75,23 @@ REQUESTS = [
     ("p", "F1", ("--foo", "x", "--nope", "1"), False, "same"),
     ("p", "F2", ("srv", "add", "h", "e", "surplus"), True, "same"),
     ("p", "F2", ("srv", "add", "h", "e", "surplus"), False, "same"),
+    # formats that live only for one request (built, parsed with, dropped)
+    ("t", "T1", ("--foo", "h"), False, "argv"),
+    ("t", "T2", ("--timeout", "5", "h"), False, "argv"),
     ("c", "alpha", ("alpha", "--foo", "it"), None, "argv"),          # two commands sharing the parser via set_args_parser
     ("c", "beta", ("bt", "--foo", "w", "-m", "z"), None, "argv"),
     ("c", "beta", ("beta", "--nope"), None, "argv"),                 # beta's config enables lenient parsing
 ]
+
+
+def temp_format(name):
+    """A short-lived format, built anew for every request of kind "t" and dropped right after the parse: formats of
+    different lifetimes on one parser (anything the parser remembers about a format must not outlive it / be confused
+    with a later one)."""
+    from clikit.api.args.format import ArgsFormat, Argument, Option
+    if name == "T1":
+        return ArgsFormat([Option("foo", "f", Option.NO_VALUE), Argument("host", Argument.OPTIONAL)])
+    return ArgsFormat([Option("timeout", "t", Option.REQUIRED_VALUE), Argument("host", Argument.OPTIONAL)])
 
 
 def build_world():
@@ -301,6 +314,8 @@ def fresh_outcome(req):
     w = world()
     raw, _ = make_raw(req)
     kind, name, _tokens, lenient, _rk = req
+    if kind == "t":
+        return outcome(lambda: DefaultArgsParser().parse(raw, temp_format(name), lenient))[0]
     if kind == "c" and lenient is None:
         lenient = w["cmds"][name].config.is_lenient_args_parsing_enabled()
     return outcome(lambda: DefaultArgsParser().parse(raw, w["fmts"][name], lenient))[0]
@@ -336,6 +351,13 @@ def step_light(st, op, table):
     req = _norm(op)
     raw, _argv = make_raw(req, st.pool)
     args = None
+    if req[0] == "t":
+        try:
+            st.parser.parse(raw, temp_format(req[1]), req[3])
+        except Exception:
+            pass
+        st.earlier.append((req, None, None, raw, raw_snapshot(raw)))
+        return
     try:
         if req[0] == "c":
             args = st.bind(req[1]).parse(raw, req[3])
@@ -393,6 +415,15 @@ class Spec(object):
         kind, name, tokens, lenient, rawkind = req
         vs = []
         w = st.w
+        if kind == "t":
+            raw, _argv = make_raw(req, st.pool)
+            got = outcome(lambda: st.parser.parse(raw, temp_format(name), lenient))[0]  # neither format nor result is kept
+            exp = self.expected(req)
+            if got != exp:
+                vs.append(report.viol("reuse-differs:short-lived-format", "re-used parser gives another outcome for a format that lives only for this "
+                                      "parse (after %d earlier parse(s)) than a fresh parser" % len(st.earlier), None, exp, got))
+            st.earlier.append((req, None, None, raw, raw_snapshot(raw)))
+            return vs
         fmt = st.fmts[name]
 
         # wrapping an argv list must not alter it
@@ -562,7 +593,9 @@ def main():
     spec = Spec(core + [extra], table)
     aborted = False
     depth = 8 if thorough else 6
-    r = explore.explore(spec, depth, split_depth=1, dedup=True)
+    # (a parser whose reachable states do not converge - e.g. one that accumulates something per parse - is cut off at a
+    #  state cap: the closed-graph claim is then not made, the per-sequence part below still judges every short history)
+    r = explore.explore(spec, depth, split_depth=1, dedup=True, max_states=20000)
     rep.merge(r.violations)
     rep.part("closed-graph", depth_bound=depth, alphabet_size=len(spec.requests), dedup=True, **r.as_dict())
     rep.set("graph_closed", bool(r.closed and not r.violations))
